@@ -206,7 +206,7 @@ def rule_dispatch_refs(cx, tier):
                           fn.file, fn.line))
         r.sample({"fn": fn.qual, "keys": sorted(keys), "object_methods": sorted(methods)}, limit=14)
     r.analysed = {"operator_functions": n}
-    r.floor("operator functions", n, 16)
+    r.floor("operator functions", n, 12)
     return r
 
 
@@ -266,7 +266,7 @@ def rule_dispatch_order(cx, tier):
                               f"guarded by `{g[:60]}` (expected a test for {C}Rhs)", fn.file, a[2]))
         r.sample({"fn": fn.qual, "arms": kinds}, limit=8)
     r.analysed = {"dispatch_matches": n}
-    r.floor("arithmetic dispatch matches", n, 6)
+    r.floor("arithmetic dispatch matches", n, 4)
     return r
 
 
@@ -325,7 +325,7 @@ def rule_obj_defaults(cx, tier):
                           f"silently succeed", fn.file, fn.line))
         r.sample({"method": name, "verdict": verdict}, limit=40)
     r.analysed = {"provided_result_methods": n}
-    r.floor("provided KotoObject methods returning Result", n, 25)
+    r.floor("provided KotoObject methods returning Result", n, 18)
     return r
 
 
@@ -425,7 +425,7 @@ def rule_dispatch_operands(cx, tier):
                               f"(documented: {want[0]}, {want[1]})", fn.file, c.line))
             r.sample({"fn": fn.qual, "key": key, "instance": inst, "argument": arg, "line": c.line}, limit=10)
     r.analysed = {"metamap_operator_calls": n}
-    r.floor("metamap operator calls with a traced key", n, 12)
+    r.floor("metamap operator calls with a traced key", n, 9)
     return r
 
 
@@ -511,6 +511,6 @@ def rule_base_walk(cx, tier):
                                   f"`{c.short[len(MAPI):]}` is called on `{rname}`, which the loop never advances: every "
                                   f"step of the climb repeats the lookup in the same map", fn.file, c.line))
     r.floor("@base climbing loops", loops_found, 2)
-    r.floor("map lookups inside them", lookups_found, 6)
+    r.floor("map lookups inside them", lookups_found, 4)
     r.analysed = {"loops": loops_found, "lookups": lookups_found}
     return r
